@@ -440,3 +440,51 @@ func ErrsEq(a, b []*errors.Error) bool {
 	}
 	return eq
 }
+
+// ---- H_Probe: native helper for the driver (token spans of a concrete source) -----
+
+func init() { Register("H_Probe", H_Probe) }
+
+func H_Probe() {
+	in := []byte(ParamStr("src"))
+	major, minor := PickVersion()
+	a := ParseWith(in, major, minor, true)
+	Observe("nerr", len(a.Errs))
+	if IsNilVertex(a.Root) {
+		return
+	}
+	s := ""
+	var add func(t *token.Token, ff int)
+	add = func(t *token.Token, ff int) {
+		if t == nil || t.Position == nil {
+			return
+		}
+		s += itoaL(int(t.ID)) + ":" + itoaL(t.Position.StartPos) + ":" + itoaL(t.Position.EndPos) + ":" + itoaL(ff) + ";"
+	}
+	for _, t := range TokensOf(a.Root, nil, false) {
+		for _, f := range t.FreeFloating {
+			add(f, 1)
+		}
+		add(t, 0)
+	}
+	ObserveStr("toks", s)
+}
+
+func itoaL(n int) string {
+	if n == 0 {
+		return "0"
+	}
+	neg := n < 0
+	if neg {
+		n = -n
+	}
+	var b []byte
+	for n > 0 {
+		b = append([]byte{byte('0' + n%10)}, b...)
+		n /= 10
+	}
+	if neg {
+		b = append([]byte{'-'}, b...)
+	}
+	return string(b)
+}
